@@ -438,18 +438,34 @@ pub fn for_each_replay_line(path: &str, mut f: impl FnMut(Value)) {
         eprintln!("cannot read {}: {}", path, e);
         std::process::exit(2)
     });
+    // a panic of the code under test outside the judge's own guarded sections (while a state is built, dumped or
+    // dropped) ends that case only: it is written to $XV_PANIC_FILE (the orchestrator reports it) and replay goes on
+    let mut call = |v: Value| {
+        let keep = v.clone();
+        if let Err(_) = catch_unwind(AssertUnwindSafe(|| f(v))) {
+            let msg = LAST_PANIC.with(|l| l.borrow().clone());
+            if let Ok(path) = std::env::var("XV_PANIC_FILE") {
+                use std::io::Write;
+                if let Ok(mut fh) = std::fs::OpenOptions::new().create(true).append(true).open(path) {
+                    let _ = writeln!(fh, "{}", serde_json::json!({"case": keep, "panic": msg}));
+                }
+            } else {
+                eprintln!("UNGUARDED-PANIC {} on case {}", msg, keep);
+            }
+        }
+    };
     for line in std::io::BufReader::with_capacity(1 << 20, file).lines() {
         let line = match line { Ok(l) => l, Err(_) => continue };
         let l = line.trim();
         if l.starts_with('{') {
             if let Ok(v) = serde_json::from_str::<Value>(l) {
-                f(v);
+                call(v);
             }
         } else if let Some(rest) = l.strip_prefix("<<\"REPLAY\", ") {
             if let Some(body) = rest.strip_suffix(">>") {
                 if let Ok(Value::String(inner)) = serde_json::from_str::<Value>(body) {
                     if let Ok(v) = serde_json::from_str::<Value>(&inner) {
-                        f(v);
+                        call(v);
                     }
                 }
             }
